@@ -9,7 +9,11 @@ enum { SB_STR = 1, SB_CHR, SB_U32, SB_I32, SB_U64, SB_I64, SB_F32, SB_F64, SB_HE
 #endif
 typedef struct SbEvent { int kind; const char* str; size_t len; unsigned long long bits; } SbEvent;
 static SbEvent g_sb[SB_MAX]; static int g_sb_n = 0; static int g_sb_overflow = 0;
+#ifndef SB_HOOK
+#define SB_HOOK(kind, s, len, bits)
+#endif
 static bool sb_ev(int kind, const char* s, size_t len, unsigned long long bits) {
+    SB_HOOK(kind, s, len, bits);
     if (g_sb_n < SB_MAX) { g_sb[g_sb_n].kind = kind; g_sb[g_sb_n].str = s; g_sb[g_sb_n].len = len; g_sb[g_sb_n].bits = bits; g_sb_n++; } else g_sb_overflow = 1;
     return true;
 }
